@@ -297,26 +297,26 @@ def _(dims, hshape, offset, axes, method="fft", cplx=False):
 
 @fam("FFT")
 def _(dims, axis=-1, nfft=None, sampling=1.0, norm="ortho", real=False, ifftshift_before=False,
-      fftshift_after=False, engine="numpy"):
+      fftshift_after=False, engine="numpy", rdtype=False):
     return sp.FFT(tup(dims), axis=axis, nfft=nfft, sampling=sampling, norm=norm, real=real,
                   ifftshift_before=ifftshift_before, fftshift_after=fftshift_after, engine=engine,
-                  dtype="float64" if real else "complex128")
+                  dtype="float64" if (real or rdtype) else "complex128")
 
 
 @fam("FFT2D")
 def _(dims, axes=(-2, -1), nffts=None, sampling=1.0, norm="ortho", real=False, ifftshift_before=False,
-      fftshift_after=False, engine="numpy"):
+      fftshift_after=False, engine="numpy", rdtype=False):
     return sp.FFT2D(tup(dims), axes=tup(axes), nffts=tup(nffts), sampling=sampling, norm=norm, real=real,
                     ifftshift_before=ifftshift_before, fftshift_after=fftshift_after, engine=engine,
-                    dtype="float64" if real else "complex128")
+                    dtype="float64" if (real or rdtype) else "complex128")
 
 
 @fam("FFTND")
 def _(dims, axes=(-3, -2, -1), nffts=None, sampling=1.0, norm="ortho", real=False, ifftshift_before=False,
-      fftshift_after=False, engine="scipy"):
+      fftshift_after=False, engine="scipy", rdtype=False):
     return sp.FFTND(tup(dims), axes=tup(axes), nffts=tup(nffts), sampling=sampling, norm=norm, real=real,
                     ifftshift_before=ifftshift_before, fftshift_after=fftshift_after, engine=engine,
-                    dtype="float64" if real else "complex128")
+                    dtype="float64" if (real or rdtype) else "complex128")
 
 
 @fam("Interp")
@@ -428,29 +428,39 @@ def _(nt, nh, pmax=0.3):
 @fam("Sliding1D")
 def _(nwin, nover, nwins, nop, tapertype="hanning", savetaper=True, inner="matrix"):
     dimd = nwin + (nwins - 1) * (nwin - nover)
-    Op = pylops.Identity(nwin) if inner == "identity" else _leaf(("sl1", nwin, nop), nwin, nop)
+    if inner == "all":       # one operator acting on all windows at once (nop == nwin)
+        Op = pylops.FirstDerivative(dims=(nwins, nwin), axis=-1, edge=True) + 2 * pylops.Identity((nwins, nwin))
+    else:
+        Op = pylops.Identity(nwin) if inner == "identity" else _leaf(("sl1", nwin, nop), nwin, nop)
     return sp.Sliding1D(Op, nwins * nop, dimd, nwin, nover, tapertype=tapertype, savetaper=savetaper)
 
 
 @fam("Sliding2D")
-def _(nwin, nover, nwins, nop, nt, tapertype="hanning", savetaper=True):
+def _(nwin, nover, nwins, nop, nt, tapertype="hanning", savetaper=True, inner="matrix"):
     dimd = nwin + (nwins - 1) * (nwin - nover)
-    Op = _leaf(("sl2", nwin, nop, nt), nwin * nt, nop * nt)
+    if inner == "all":       # one operator acting on all windows at once (nop == nwin)
+        Op = pylops.FirstDerivative(dims=(nwins, nwin, nt), axis=1, edge=True) + 2 * pylops.Identity((nwins, nwin, nt))
+    else:
+        Op = _leaf(("sl2", nwin, nop, nt), nwin * nt, nop * nt)
     return sp.Sliding2D(Op, (nwins * nop, nt), (dimd, nt), nwin, nover, tapertype=tapertype, savetaper=savetaper)
 
 
 @fam("Patch2D")
-def _(nwin, nover, nwins, nop, tapertype="hanning", savetaper=True):
+def _(nwin, nover, nwins, nop, tapertype="hanning", savetaper=True, inner="matrix"):
     dimsd = tuple(w + (k - 1) * (w - o) for w, o, k in zip(nwin, nover, nwins))
     dims = tuple(k * p for k, p in zip(nwins, nop))
-    Op = _leaf(("p2", tuple(nwin), tuple(nop)), prod(nwin), prod(nop))
+    if inner == "all":       # one operator acting on all patches at once (nop == nwin)
+        alld = tuple(nwins) + tuple(nwin)
+        Op = pylops.FirstDerivative(dims=alld, axis=-1, edge=True) + 2 * pylops.Identity(alld)
+    else:
+        Op = _leaf(("p2", tuple(nwin), tuple(nop)), prod(nwin), prod(nop))
     return sp.Patch2D(Op, dims, dimsd, tuple(nwin), tuple(nover), tuple(nop), tapertype=tapertype, savetaper=savetaper)
 
 
 @fam("Seislet")
-def _(nx, nt, level=None, kind="haar"):
+def _(nx, nt, level=None, kind="haar", inv=False):
     slopes = (ivec(("seis", nx, nt), nx * nt, -2, 2, nz=False) * 0.25).reshape(nx, nt)
-    return sp.Seislet(slopes, level=level, kind=kind)
+    return sp.Seislet(slopes, level=level, kind=kind, inv=inv)
 
 
 # ------------------------------------------------------------------ wave / avo
@@ -542,8 +552,8 @@ def _(nt, nhy, nhx):
 
 
 @fam("Sliding3D")
-def _(savetaper=True, tapertype="hanning", nwins=(2, 2)):
-    nwin, nover, nop, nt = (4, 4), (2, 2), (2, 2), 2
+def _(savetaper=True, tapertype="hanning", nwins=(2, 2), nwin=(4, 4), nover=(2, 2)):
+    nwin, nover, nop, nt = tuple(nwin), tuple(nover), (2, 2), 2
     nwins = tuple(nwins)
     dimsd = tuple(w + (k - 1) * (w - o) for w, o, k in zip(nwin, nover, nwins)) + (nt,)
     Op = _leaf(("sl3", nt), nwin[0] * nwin[1] * nt, nop[0] * nop[1] * nt)
@@ -551,8 +561,8 @@ def _(savetaper=True, tapertype="hanning", nwins=(2, 2)):
 
 
 @fam("Patch3D")
-def _(savetaper=True, tapertype="hanning", nwins=(2, 2, 2)):
-    nwin, nover, nop = (4, 4, 4), (2, 2, 2), (2, 2, 2)
+def _(savetaper=True, tapertype="hanning", nwins=(2, 2, 2), nwin=(4, 4, 4), nover=(2, 2, 2)):
+    nwin, nover, nop = tuple(nwin), tuple(nover), (2, 2, 2)
     nwins = tuple(nwins)
     dimsd = tuple(w + (k - 1) * (w - o) for w, o, k in zip(nwin, nover, nwins))
     dims = tuple(k * p for k, p in zip(nwins, nop))
@@ -609,6 +619,13 @@ COMPLEX_INPUT_OK = {"AVOLinearModelling", "CausalIntegration", "Convolve1D", "Co
 # inputs: known finding C02-int-input; integer-dtype probes are not generated for them
 REAL_INPUT_BAD = set()      # complex-linear families that mishandle real-dtype inputs (none on the current tree)
 INT_INPUT_BAD = {"NonStationaryConvolve1D", "Seislet", "ChirpRadon2D", "ChirpRadon3D"}
+
+
+def inverse_as_adjoint(family, params):
+    """Configurations whose rmatvec is, by documented design, the INVERSE and not the adjoint (Seislet(inv=True): 'apply
+    inverse transform when invoking the adjoint'): C01 does not judge them; linearity (C02), purity (C15) and the dense
+    views of the forward (C17) are judged as for every other operator."""
+    return family == "Seislet" and bool(params.get("inv"))
 
 
 # ------------------------------------------------------------------ grids
@@ -847,6 +864,17 @@ def grid(tier, extra=True):
         add("Convolve2D", dims=[3, 4, 3], hshape=[3, 2], offset=[1, 0], axes=[0, 2], method=meth)
         add("ConvolveND", dims=[3, 4, 3], hshape=[2, 3, 2], offset=[1, 1, 0], axes=[0, 1, 2], method=meth)
     add("Convolve2D", dims=[4, 5], hshape=[3, 3], offset=[1, 1], cplx=True)
+    for meth in ("direct", "fft"):
+        add("Convolve2D", dims=[4, 5], hshape=[3, 2], offset=[1, 0], cplx=True, method=meth)
+        add("ConvolveND", dims=[3, 4, 3], hshape=[2, 3], offset=[1, 1], axes=[0, 1], method=meth, cplx=True)
+        add("ConvolveND", dims=[3, 3, 3], hshape=[2, 3, 2], offset=[0, 1, 1], axes=[0, 1, 2], method=meth, cplx=True)
+    # real declared dtype with real=False (real-linear: complex parts of the model are discarded by every engine)
+    for engine in ("numpy", "scipy", "fftw"):
+        add("FFT", dims=[5], nfft=6, real=False, rdtype=True, engine=engine)
+    for engine in ("numpy", "scipy"):
+        add("FFT2D", dims=[3, 4], real=False, rdtype=True, engine=engine)
+        add("FFT2D", dims=[2, 3, 4], axes=[-1, 0], nffts=[5, 3], real=False, rdtype=True, engine=engine, ifftshift_before=True)
+        add("FFTND", dims=[2, 3, 2], real=False, rdtype=True, engine=engine)
     for sg in (True, False):
         for um in (True, False):
             for c in (False, True):
@@ -881,6 +909,9 @@ def grid(tier, extra=True):
         add("Radon2D", nt=5, nh=3, npx=3, centeredh=False, engine=engine)
         add("Radon3D", nt=5, nhy=2, nhx=3, npy=2, npx=2, engine=engine)
         add("Radon3D", nt=5, nhy=2, nhx=3, npy=2, npx=2, engine=engine, onthefly=True, interp=False)
+        for kind in ("parabolic", "hyperbolic"):
+            add("Radon3D", nt=8, nhy=2, nhx=3, npy=2, npx=3, kind=kind, engine=engine)
+            add("Radon3D", nt=8, nhy=2, nhx=3, npy=2, npx=3, kind=kind, engine=engine, onthefly=True)
         add("FourierRadon2D", nt=6, nh=4, npx=3, nfft=8, engine=engine)
         add("FourierRadon2D", nt=6, nh=4, npx=3, nfft=8, kind="parabolic", engine=engine, flims=[1, 4])
         add("FourierRadon3D", nt=4, nhy=2, nhx=3, npy=2, npx=2, nfft=4, engine=engine)
@@ -899,6 +930,20 @@ def grid(tier, extra=True):
         add("Patch2D", nwin=[4, 4], nover=[2, 2], nwins=[2, 3], nop=[2, 2], tapertype="cosine", savetaper=st)
         add("Patch2D", nwin=[4, 4], nover=[2, 2], nwins=[3, 2], nop=[2, 2], tapertype="cosine", savetaper=st)
         add("Sliding1D", nwin=4, nover=2, nwins=3, nop=4, tapertype="hanning", savetaper=st, inner="identity")
+        for tp in ("hanning", "cosine", None):
+            add("Sliding1D", nwin=4, nover=2, nwins=3, nop=4, tapertype=tp, savetaper=st, inner="all")
+        # overlaps of 3 samples: the tapers take the value 1/2 (1/4 for cosinesquare), not only 0 and 1 as with overlaps of 2
+        for tp in ("hanning", "cosinesquare"):
+            add("Sliding1D", nwin=6, nover=3, nwins=3, nop=2, tapertype=tp, savetaper=st)
+            add("Sliding1D", nwin=6, nover=3, nwins=3, nop=6, tapertype=tp, savetaper=st, inner="all")
+        add("Sliding2D", nwin=6, nover=3, nwins=3, nop=2, nt=2, tapertype="cosinesquare", savetaper=st)
+        add("Sliding2D", nwin=6, nover=3, nwins=2, nop=6, nt=2, tapertype="hanning", savetaper=st, inner="all")
+        add("Patch2D", nwin=[6, 6], nover=[3, 3], nwins=[2, 2], nop=[2, 2], tapertype="cosinesquare", savetaper=st)
+        add("Patch2D", nwin=[6, 4], nover=[3, 2], nwins=[2, 2], nop=[6, 4], tapertype="hanning", savetaper=st, inner="all")
+        add("Sliding3D", savetaper=st, tapertype="cosinesquare", nwins=[2, 2], nwin=[6, 4], nover=[3, 2])
+        add("Patch3D", savetaper=st, tapertype="cosinesquare", nwins=[2, 2, 2], nwin=[6, 4, 4], nover=[3, 2, 2])
+        add("Sliding2D", nwin=4, nover=2, nwins=3, nop=4, nt=2, tapertype="cosine", savetaper=st, inner="all")
+        add("Patch2D", nwin=[4, 4], nover=[2, 2], nwins=[2, 3], nop=[4, 4], tapertype="cosine", savetaper=st, inner="all")
     # wave-propagation / seismic families with less common options
     add("BlendingGroup", nt=4, nr=2, ns=4, group_size=2)
     add("BlendingGroup", nt=4, nr=2, ns=4, group_size=2, half=True)
@@ -919,6 +964,7 @@ def grid(tier, extra=True):
         add("NonStationaryConvolve3D", dims=[4, 4, 3], hshape=[3, 3, 3], engine=engine)
     add("Seislet", nx=4, nt=4)
     add("Seislet", nx=8, nt=3, kind="linear")
+    add("Seislet", nx=4, nt=4, inv=True)       # rmatvec applies the INVERSE by documented design (see inverse_as_adjoint)
     for ts in (True, False):
         for um in (True, False):
             for eng in ("numpy", "scipy", "fftw"):
